@@ -16,8 +16,8 @@ Via3 == {"gw", "gw2", "other"}
 Rnd1 == {49152}
 \* --- ports: a toy range (privileged < 3, dynamic 6..8, wrap at 9) so that probing, wrapping and exhaustion
 \*     are all reachable
-P_SPorts == {1, 4, 7, 8}
-P_Rnds == {6, 8, 9}
+P_SPorts == {1, 4, 7}
+P_Rnds == {6, 9}
 P_InPorts == {4, 6}
 \* --- features: DNS hack, local destinations, two protocols, a second gateway MAC, a foreign station outside
 F_SPorts == {5000, 80}
@@ -27,6 +27,7 @@ F_Protos == {6, 17}
 F_Rnds == {49152, 65534}
 F_InPorts == {5000, 49152}
 P6 == {6}
+P17 == {17}
 DP80 == {80}
 \* --- the binding (export / traces): the numbers of nat.py
 X_SPorts == {5000, 5001, 80, 65533}
@@ -45,6 +46,9 @@ DP53 == {53}
 Via2 == {"gw", "other"}
 MaxBlocked1 == Cardinality(blocked) <= 1
 MaxMaps1 == Cardinality(maps) <= 1
+PP_SPorts == {65533, 80}
+PP_Rnds == {65533, 65534}
+NoTime == \A m \in maps : m.age = 0
 MaxMaps2 == Cardinality(maps) <= 2
 MaxMaps3 == Cardinality(maps) <= 3
 MaxMaps5 == Cardinality(maps) <= 5
